@@ -385,3 +385,502 @@ def tolerance(precision, nparams):
     return gates.fl(t)
 
 
+# ======================================================================================================
+# exporting
+# ======================================================================================================
+APIS = ['to_qasm', 'to_qasm', 'cirq.qasm', 'QasmOutput']
+LENIENT = ('sxdg',)
+
+
+def export(cirq, circuit, order, api, version, precision):
+    """Returns (text, None) or (None, exception)."""
+    try:
+        with warnings.catch_warnings():
+            warnings.simplefilter('ignore')
+            if api == 'to_qasm':
+                return circuit.to_qasm(precision=precision, qubit_order=order, version=version), None
+            if api == 'cirq.qasm':
+                # no qubit order argument: the default (sorted) order
+                return cirq.qasm(circuit, args=cirq.QasmArgs(precision=precision, version=version)), None
+            return str(cirq.QasmOutput(circuit.all_operations(), tuple(order), precision=precision, version=version)), None
+    except Exception as e:       # noqa
+        return None, e
+
+
+def draw_config(rng, qs):
+    version = rng.choice(['2.0', '2.0', '3.0'])
+    precision = rng.choice([10, 10, 10, 7, 5, 3])
+    api = rng.choice(APIS)
+    order = list(qs)
+    r = rng.random()
+    if api == 'cirq.qasm':
+        order = sorted(qs)
+    elif r < 0.3:
+        order = list(reversed(order))
+    elif r < 0.6:
+        rng.shuffle(order)
+    return dict(version=version, precision=precision, api=api, order=order)
+
+
+def cfg_json(cfg):
+    return {k: (v if k != 'order' else [q.x for q in v]) for k, v in cfg.items()}
+
+
+REFUSALS = ('QASM is defined only for', 'QASM 2.0 does not support multiple conditions', 'Cannot output operation as QASM')
+
+
+def classify_export_error(cirq, circuit, exc):
+    """'refused' (an explicit statement that the operation has no QASM form) or a violation tag."""
+    msg = str(exc)
+    if isinstance(exc, NotImplementedError) and any(isinstance(c, cirq.BitMaskKeyCondition) for op in circuit.all_operations()
+                                                    for c in getattr(op.untagged, 'classical_controls', ())):
+        return 'refused'
+    if isinstance(exc, ValueError) and any(m in msg for m in REFUSALS):
+        return 'refused'
+    if isinstance(exc, TypeError):
+        for op in circuit.all_operations():
+            u = op.untagged
+            if isinstance(u, cirq.ClassicallyControlledOperation) and u.classical_controls:
+                sub = u.without_classical_controls()
+                try:
+                    q = cirq.qasm(sub, args=cirq.QasmArgs(qubit_id_map={q: 'q' for q in circuit.all_qubits()}), default=None)
+                except Exception:       # noqa
+                    q = ''
+                if q is None:
+                    return 'export-raises:TypeError:classically-controlled-op-without-qasm-form'
+    return f'export-raises:{type(exc).__name__}'
+
+
+# ======================================================================================================
+# one program: export -> read -> the Gallina checks
+# ======================================================================================================
+def valid_id(s):
+    return re.match(r'[a-z][a-zA-Z0-9_]*\Z', s) is not None
+
+
+def analyse(cirq, circuit, order):
+    """measurements [(key, axes, full invert mask)], controlled ops [(conditions, sub-operation)] in operation order."""
+    axis_of = {q: i for i, q in enumerate(order)}
+    meas, ctrls, other = [], [], 0
+    for op in circuit.all_operations():
+        u = op.untagged
+        if isinstance(u, cirq.ClassicallyControlledOperation) and u.classical_controls:
+            ctrls.append((list(u.classical_controls), u.without_classical_controls(), len(meas)))
+        elif isinstance(op.gate, cirq.MeasurementGate):
+            meas.append((str(op.gate.key), [axis_of[q] for q in op.qubits], list(op.gate.full_invert_mask())))
+        elif isinstance(op.gate, cirq.ResetChannel):
+            other += 1
+    return meas, ctrls, other
+
+
+def cond_key(cirq, c):
+    import sympy
+    if isinstance(c, (cirq.KeyCondition, cirq.BitMaskKeyCondition)):
+        return str(c.key)
+    if isinstance(c, cirq.SympyCondition):
+        syms = [s for s in c.expr.free_symbols if isinstance(s, sympy.Symbol)]
+        if len(syms) == 1:
+            return str(syms[0])
+    raise opsem.Unsupported(f'condition {c!r}')
+
+
+def diagnose(cirq, circuit, order, P, text):
+    """Names the feature of the input that explains a disagreement (signature of the finding)."""
+    import sympy
+    meas, ctrls, _ = analyse(cirq, circuit, order)
+    args = cirq.QasmArgs()
+    keys = []
+    for k, _, _ in meas:
+        if k not in keys:
+            keys.append(k)
+    for conds, sub, nbefore in ctrls:
+        if isinstance(sub.gate, cirq.GlobalPhaseGate):
+            return 'if:empty-body:global-phase'
+        try:
+            q = cirq.qasm(sub, args=cirq.QasmArgs(qubit_id_map={q: f'q[{i}]' for i, q in enumerate(order)},
+                                                  meas_key_id_map={k: 'm' for k in keys}), default=None)
+        except Exception:
+            q = None
+        if q is not None and q.count(';') > 1:
+            return 'if:multi-statement-body'
+    for conds, sub, nbefore in ctrls:
+        for c in conds:
+            if isinstance(c, cirq.SympyCondition) and isinstance(c.expr, sympy.Eq):
+                k = cond_key(cirq, c)
+                if not valid_id('m_' + k):
+                    return 'cond:sympy-eq:register-name'
+                sizes = [len(a) for kk, a, _ in meas[:nbefore] if kk == k]
+                if sizes and sizes[-1] > 1:
+                    return 'cond:sympy-eq:bit-order'
+            if isinstance(c, (cirq.KeyCondition,)) and c.index != -1:
+                return 'cond:index-ignored'
+    for k in set(kk for kk, _, _ in meas):
+        sizes = [len(a) for kk, a, _ in meas if kk == k]
+        if len(set(sizes)) > 1:
+            return 'registers:key-with-several-sizes'
+    return None
+
+
+def program_checks(cirq, circuit, cfg, text, ref=None):
+    """Returns (P, [(label, gallina bool expr)], info) for a parsed text; raises Malformed / Unsupported / opsem.Unsupported."""
+    order = cfg['order']
+    P = read_qasm(text, lenient=LENIENT)
+    n = len(order)
+    meas, ctrls, resets = analyse(cirq, circuit, order)
+    tol = tolerance(cfg['precision'], P.nparams)
+    prog = program_term(P)
+    out = []
+    out.append(('layout:qubits', 'true' if P.nqubits == n else 'false'))
+    if not meas and not ctrls and not resets:
+        if ref is None:
+            terms, _, _ = opsem.circuit_to_mops(cirq, circuit, order)
+            # all MGate: strip to gop list
+            sh = gates.nlist([2] * n)
+            expr = (f'match qunitary FOps {n} {prog} with\n | Some u => fcll_close_phase {tol} u (unitary_tab FOps {sh} '
+                    f'(flat_map (fun o => match o with MGate g => [rop_of FOps false g] | _ => [] end) {terms}))\n | None => false end')
+        else:
+            sh, ops = ref
+            expr = (f'match qunitary FOps {n} {prog} with\n | Some u => fcll_close_phase {tol} u (circ_unitary FOps {sh} {ops})\n | None => false end')
+        out.append(('unitary', ('true' if not P.cregs else 'false') + ' && ' + expr))
+        return P, out, dict(tol=tol, nbits=0)
+    # ---- (ii) registers and measure statements against the layout model ----
+    keyid = opsem.KeyIds()
+    ms = '[' + '; '.join(f'({keyid(k)}%nat, {gates.nlist(ax)}, {coq.blist(inv)})' for k, ax, inv in meas) + ']'
+    stmts = []
+
+    def walk(s):
+        if s[0] == 'measure':
+            stmts.append(s[1:])
+        elif s[0] == 'if':
+            walk(s[2])
+    for s in P.stmts:
+        walk(s)
+    sizes = gates.nlist([c[1] for c in P.cregs])
+    st = '[' + '; '.join(f'({q}%nat, {r}%nat, {b}%nat)' for q, r, b in stmts) + ']'
+    out.append(('registers', f'layout_ok {ms} {sizes} {st}'))
+    keys = list(keyid.ids)
+    names_ok = len(keys) == len(P.cregs)
+    for k, (name, size, comment) in zip(keys, P.cregs):
+        if valid_id('m_' + k):
+            names_ok = names_ok and name == 'm_' + k
+        else:
+            names_ok = names_ok and re.match(r'm\d+\Z', name) is not None and comment == 'Measurement: ' + ' '.join(k.split('\n'))
+    out.append(('registers:key-names', 'true' if names_ok else 'false'))
+    # ---- (iii) conditions as truth tables over the register bits ----
+    ifs = [s for s in P.stmts if s[0] == 'if']
+    if len(ifs) != len(ctrls) or any(len(s[1]) != len(c[0]) for s, c in zip(ifs, ctrls)):
+        out.append(('conditions:count', 'false'))
+    else:
+        for j, (s, (conds, sub, nbefore)) in enumerate(zip(ifs, ctrls)):
+            for (reg, op, val), c in zip(s[1], conds):
+                k = cond_key(cirq, c)
+                lens = [len(a) for kk, a, _ in meas[:nbefore] if kk == k][-2:]
+                if not lens:
+                    raise opsem.Unsupported('condition on a key that is not measured before')
+                cterm = opsem.cond_terms(cirq, [c], keyid)[1:-1]
+                qc = f'(QCond {reg} {P.cregs[reg][1]} {val} {"true" if op == "==" else "false"})'
+                out.append((f'condition[{j}]', f'cond_same {cterm} {keyid(k)} {qc} {reg} {gates.nlist(lens)}'))
+    # ---- (iv) outcome distribution and per-outcome states ----
+    nbits = sum(len(a) for _, a, _ in meas)
+    if nbits <= 5 and n <= 4:
+        terms, _, _ = opsem.circuit_to_mops(cirq, circuit, order, keyid)
+        sh = gates.nlist([2] * n)
+        out.append(('distribution', f'ensembles_close {tol} {2 ** n} {nbits} (exec FOps {sh} {terms} (zero_state {n})) '
+                                    f'(qexec FOps {sh} {prog} (zero_state {n}))'))
+    return P, out, dict(tol=tol, nbits=nbits)
+
+
+class Batch:
+    """Collects the Gallina checks of many programs, evaluates them in shards, reports per program."""
+
+    def __init__(self, ctx, cirq):
+        self.ctx, self.cirq = ctx, cirq
+        self.items = []        # (program index, label, expr)
+        self.programs = []
+
+    def add(self, stream, circuit, cfg, fams, nontrivial, ref=None, sample=None):
+        ctx, cirq = self.ctx, self.cirq
+        cj = cfg_json(cfg)
+        key = [cirq.to_json(circuit), cj]
+        rep = dict(circuit_json=cirq.to_json(circuit), config=cj)
+        desc = (f'{cfg["api"]}(version={cfg["version"]}, precision={cfg["precision"]}, qubit_order={cj["order"]}) of '
+                + ' '.join(repr(circuit).split()))[:700]
+        text, exc = export(cirq, circuit, cfg['order'], cfg['api'], cfg['version'], cfg['precision'])
+        if exc is not None:
+            tag = classify_export_error(cirq, circuit, exc)
+            ctx.count(stream, key, False)
+            if tag == 'refused':
+                r = ctx.cov.setdefault('refused_exports', {})
+                why = re.sub(r'[^A-Za-z .=]', '', str(exc).split(':')[0])[:60]
+                r[why] = r.get(why, 0) + 1
+            if tag != 'refused':
+                ctx.disagree(f'correspondence:{stream}', f'{type(exc).__name__}: {exc}', tag if 'controlled' in tag else tag + ':' + '+'.join(fams),
+                             f'{desc} raises {type(exc).__name__}: {str(exc)[:160]} although every operation has a unitary and a decomposition',
+                             dict(kind=stream, **rep))
+            return 'refused' if tag == 'refused' else 'raised'
+        rep['qasm'] = text
+        try:
+            P, exprs, info = program_checks(cirq, circuit, cfg, text, ref)
+        except Malformed as e:
+            msg = str(e)
+            ctx.count(stream, key, nontrivial)
+            tag = msg.split('|')[1] if '|' in msg else (diagnose(cirq, circuit, cfg['order'], None, text) or 'malformed:' + '+'.join(fams))
+            ctx.disagree(f'correspondence:{stream}', msg, tag, f'{desc}: the emitted text is not OpenQASM {cfg["version"]}: {msg.split("|")[0]}',
+                         dict(kind=stream, **rep))
+            return 'malformed'
+        except Unsupported as e:
+            ctx.mark_broken('reader:unsupported', f'{e}\n{text[:1500]}')
+            return 'gap'
+        except opsem.Unsupported as e:
+            ctx.count(stream, key, False)
+            return 'skipped'
+        for name in sorted(set(P.undefined)):
+            ctx.disagree(f'correspondence:{stream}', f'{name} is not in stdgates.inc', f'undefined-gate:{cfg["version"]}:{name}',
+                         f'{desc}: gate {name!r} is not defined by the standard library of OpenQASM {cfg["version"]}', dict(kind=stream, **rep))
+        ctx.count(stream, key, nontrivial, sample=sample if sample is not None else
+                  dict(circuit=' '.join(repr(circuit).split())[:300], config=cj, instructions=len(P.stmts), checks=[l for l, _ in exprs]))
+        idx = len(self.programs)
+        self.programs.append(dict(stream=stream, desc=desc, rep=rep, fams=fams, circuit=circuit, cfg=cfg, P=P, text=text, tol=info['tol']))
+        for label, expr in exprs:
+            self.items.append((idx, label, expr))
+        return 'ok'
+
+    def evaluate(self, tag):
+        ctx = self.ctx
+        SH = 40
+        shards = []
+        for s0 in range(0, len(self.items), SH):
+            part = self.items[s0:s0 + SH]
+            text = PRE + 'Definition checks : list bool := [\n' + ';\n'.join('(' + c[2] + ')' for c in part) + '].\nEval vm_compute in failing (fun b => b) checks.\n'
+            shards.append((f'c19_{tag}_{ctx.seed}_{s0 // SH}', text))
+        outs = coq.coq_eval_many(shards, workers=12)
+        failing = {}
+        for si, out in enumerate(outs):
+            for idx in coq.parse_nat_list(coq.parse_evals(out)[0]):
+                pi, label, _ = self.items[si * SH + idx]
+                failing.setdefault(pi, []).append(label)
+        for pi, labels in sorted(failing.items()):
+            pr = self.programs[pi]
+            diag = diagnose(self.cirq, pr['circuit'], pr['cfg']['order'], pr['P'], pr['text'])
+            sig = diag or (labels[0].split('[')[0] + ':' + '+'.join(pr['fams']))
+            what = {'unitary': f'the parsed text does not perform the circuit unitary up to global phase within {float.fromhex(pr["tol"].strip("()")):.3g}',
+                    'distribution': 'the parsed program and the circuit have different outcome distributions / per-outcome states',
+                    'registers': 'registers or measure statements differ from one bit per measured qubit in operation order',
+                    'registers:key-names': 'the register names do not correspond to the measurement keys',
+                    'conditions:count': 'the number of conditional statements differs from the number of classically controlled operations',
+                    'layout:qubits': 'the declared quantum register does not have one qubit per circuit qubit'}
+            detail = '; '.join(what.get(l, f'{l} of the text differs from the circuit condition (as a predicate on the measured bits)') for l in labels)
+            ctx.disagree(f'correspondence:{pr["stream"]}', f'{labels}', sig, f'{pr["desc"]}: {detail}' + (f' [{diag}]' if diag else ''),
+                         dict(kind=pr['stream'], failing=labels, **pr['rep']))
+        return failing
+
+
+QASM_FAMILIES = ['XPow', 'YPow', 'ZPow', 'HPow', 'CZPow', 'CXPow', 'CYPow', 'SwapPow', 'ISwapPow', 'XXPow', 'YYPow', 'ZZPow',
+                 'CCZPow', 'CCXPow', 'CCYPow', 'PI', 'Rx', 'Ry', 'Rz', 'MS', 'FSim', 'PhasedFSim', 'PhasedX', 'PhasedXZ',
+                 'PhasedISwap', 'Givens', 'CSwap', 'GlobalPhase', 'Diagonal', 'QFT', 'PhaseGrad', 'Matrix', 'Matrix', 'Identity', 'Perm',
+                 'Ctrl']
+
+
+def run(ctx):
+    cirq = env.import_cirq()
+    ctx.rule = ('programs = (generated circuit over the gate vocabulary incl. 1-3 qubit MatrixGates, controlled gates, every family '
+                'with a _qasm_ rule at its special and at generic exponents; circuits with measurements, invert masks, repeated and '
+                'non-identifier keys, classical controls of every condition kind, resets) x (API: Circuit.to_qasm / cirq.qasm / QasmOutput) x '
+                '(version 2.0 / 3.0) x (precision 3,5,7,10) x (qubit order: given, reversed, shuffled); non-trivial = >= 2 operations '
+                'sharing a qubit and >= 1 non-diagonal gate (unitary streams), >= 1 measurement and >= 1 gate (measurement streams); '
+                'exports that refuse with an explicit "no QASM form" error are counted as trivial; distinct by canonical (circuit, configuration)')
+    ctx.assumptions += ['transcription of qelib1.inc / stdgates.inc in coq/Vendor/Qasm.v', 'the Python reader of the emitted subset',
+                        'docstring transcription in coq/Gates/GateSpecs.v', 'float tolerance 10^(1-precision) * max(1, angles/10) + 1e-9',
+                        'an undefined mnemonic of 3.0 (sxdg) is reported and then read with its qelib1.inc meaning so that the rest of the program is still compared']
+    err = tables.regenerate(['EigenTables'])
+    if err['EigenTables']:
+        ctx.mark_broken('table:EigenTables', err['EigenTables'])
+    ctx.set_obligations(coq.compile_props('C19'))
+    k = 1 if ctx.tier == 'quick' else 10
+    b = Batch(ctx, cirq)
+    rules_stream(ctx, cirq, b, k)
+    unitary_stream(ctx, cirq, b, 110 * k)
+    directed_stream(ctx, cirq, b)
+    measure_stream(ctx, cirq, b, 150 * k)
+    b.evaluate('all')
+    ctx.cov['programs'] = len(b.programs)
+
+
+def unitary_stream(ctx, cirq, b, n):
+    rng = ctx.rng
+    for _ in range(n):
+        case = circuits.random_case(rng, max_wires=4, max_ops=7, qudits=False, families=QASM_FAMILIES)
+        if any(d != 2 for o in case.ops for d in o.g.shape) or not case.ops:
+            continue
+        circuit, qs = case.circuit(cirq)
+        cfg = draw_config(rng, qs)
+        order_idx = [q.x for q in cfg['order']]
+        fams = sorted({o.g.fam for o in case.ops})
+        b.add('unitary', circuit, cfg, fams, case.nontrivial(), ref=(case.coq_shape(order_idx), case.coq_ops(order_idx)))
+
+
+def rules_stream(ctx, cirq, b, k):
+    """Every family with a `_qasm_` rule, at each special exponent / shift of its guard and at generic ones, alone on shuffled qubits."""
+    rng = ctx.rng
+    G = gates.G
+    rows = []
+    for fam in ['XPow', 'YPow', 'ZPow', 'HPow']:
+        for e in [1.0, 0.5, -0.5, 0.25, -0.25, 0.0, -1.0, 2.0, 3.0, 1.5, round(rng.uniform(-2, 2), 4), round(rng.uniform(-9, 9), 3)]:
+            for s in [0.0, -0.5, 0.25]:
+                rows.append(G(fam, dict(e=e, s=s), (2,)))
+    for fam in ['CZPow', 'CXPow', 'CYPow', 'SwapPow']:
+        for e in [1.0, -1.0, 3.0, 0.5, 2.0, 0.0, round(rng.uniform(-2, 2), 4)]:
+            for s in [0.0, 0.5]:
+                rows.append(G(fam, dict(e=e, s=s), (2, 2)))
+    for fam in ['CCZPow', 'CCXPow', 'CCYPow']:
+        for e in [1.0, -1.0, 0.5, round(rng.uniform(-2, 2), 4)]:
+            for s in [0.0, 0.25]:
+                rows.append(G(fam, dict(e=e, s=s), (2, 2, 2)))
+    rows += [G('CSwap', {}, (2, 2, 2)), G('Identity', {}, (2,)), G('Identity', {}, (2, 2)), G('Identity', {}, (2, 2, 2))]
+    for fam in ['Rx', 'Ry', 'Rz']:
+        for a in [0.0, math.pi / 2, math.pi, -math.pi / 4, round(rng.uniform(-7, 7), 4)]:
+            rows.append(G(fam, dict(rads=a), (2,)))
+    for e in [0.5, -0.5, 1.5, 0.5 + 1e-12, 1.0, 0.0, 2.5, round(rng.uniform(-2, 2), 4)]:
+        for p in [0.0, 0.25, round(rng.uniform(-1, 1), 4)]:
+            rows.append(G('PhasedX', dict(p=p, e=e, s=rng.choice([0.0, -0.5])), (2,)))
+    for _ in range(6 * k):
+        rows.append(gates.draw(rng, 'PhasedXZ'))
+        rows.append(G('Matrix', dict(m=gates.random_unitary(rng, 2)), (2,)))
+        rows.append(G('Matrix', dict(m=gates.random_unitary(rng, 4)), (2, 2)))
+    rows.append(G('Matrix', dict(m=gates.random_unitary(rng, 8)), (2, 2, 2)))
+    # ControlledOperation rules: one qubit control on X, Y, Z, H (cx, cy, cz, ch) and what falls outside the guard
+    for sub in ['XPow', 'YPow', 'ZPow', 'HPow']:
+        for e, s, cv in [(1.0, 0.0, [1]), (1.0, 0.0, [0]), (0.5, 0.0, [1]), (1.0, 0.5, [1])]:
+            rows.append(G('Ctrl', dict(sub=G(sub, dict(e=e, s=s), (2,)), cdims=[2], cv=('pos', [cv])), (2, 2)))
+    for g in rows:
+        nq = max(len(g.shape), 1) + rng.choice([0, 1])
+        wires = rng.sample(range(nq), len(g.shape))
+        case = circuits.Case([2] * nq, [circuits.Op(g, wires)], ['E'])
+        circuit, qs = case.circuit(cirq)
+        cfg = draw_config(rng, qs)
+        cfg['precision'] = 10
+        order_idx = [q.x for q in cfg['order']]
+        b.add('rules', circuit, cfg, [g.fam], True, ref=(case.coq_shape(order_idx), case.coq_ops(order_idx)))
+
+
+def directed_circuits(cirq):
+    """Hand-picked circuits with measurements and classical control (each is also reachable by the generator)."""
+    import sympy
+    q = cirq.LineQubit.range(4)
+    a = sympy.Symbol('a')
+    xy = sympy.Symbol('x y')
+    K = cirq.MeasurementKey
+    return [
+        cirq.Circuit(cirq.H(q[0]), cirq.measure(q[0], key='a'), cirq.X(q[1]).with_classical_controls('a'), cirq.measure(q[1], key='b')),
+        cirq.Circuit(cirq.H(q[0]), cirq.X(q[1]) ** 0.5, cirq.measure(q[0], q[1], key='a', invert_mask=(True, False)),
+                     cirq.measure(q[2], key='x y'), cirq.X(q[3]).with_classical_controls('x y')),
+        cirq.Circuit(cirq.H(q[0]), cirq.measure(q[0], key='a'), (cirq.H(q[1]) ** 0.5).with_classical_controls('a'), cirq.X(q[2])),
+        cirq.Circuit(cirq.H(q[0]), cirq.measure(q[0], key='a'), (cirq.SWAP(q[1], q[2]) ** 0.5).with_classical_controls('a')),
+        cirq.Circuit(cirq.H(q[0]), cirq.measure(q[0], key='a'), cirq.global_phase_operation(1j).with_classical_controls('a'), cirq.X(q[2])),
+        cirq.Circuit(cirq.H(q[0]), cirq.H(q[1]), cirq.measure(q[0], q[1], key='a'), cirq.X(q[2]).with_classical_controls(sympy.Eq(a, 1))),
+        cirq.Circuit(cirq.H(q[0]), cirq.H(q[1]), cirq.measure(q[0], q[1], key='a'), cirq.X(q[2]).with_classical_controls(sympy.Eq(a, 3))),
+        cirq.Circuit(cirq.H(q[0]), cirq.measure(q[0], key='x y'), cirq.X(q[2]).with_classical_controls(sympy.Eq(xy, 1))),
+        cirq.Circuit(cirq.H(q[0]), cirq.measure(q[0], key='a'), cirq.X(q[0]), cirq.measure(q[0], key='a'),
+                     cirq.X(q[1]).with_classical_controls(cirq.KeyCondition(K('a'), index=0))),
+        cirq.Circuit(cirq.H(q[0]), cirq.measure(q[0], key='a'), cirq.reset(q[0]), cirq.Y(q[1]).with_classical_controls('a'), cirq.measure(q[0], q[1], key='b')),
+        cirq.Circuit(cirq.H(q[0]), cirq.H(q[1]), cirq.measure(q[0], key='a'), cirq.measure(q[1], key='b'),
+                     cirq.X(q[2]).with_classical_controls('a', 'b'), cirq.measure(q[2], key='c')),
+        cirq.Circuit(cirq.H(q[0]), cirq.measure(q[0], key='a'), cirq.measure(q[0], q[1], key='a')),
+    ]
+
+
+def directed_stream(ctx, cirq, b):
+    for c in directed_circuits(cirq):
+        qs = sorted(c.all_qubits())
+        for version in ('2.0', '3.0'):
+            cfg = dict(version=version, precision=10, api='to_qasm', order=list(qs))
+            b.add('directed', c, cfg, ['directed'], True)
+
+
+def random_qasm_mcircuit(cirq, rng):
+    import sympy
+    n = rng.randint(1, 3)
+    qs = cirq.LineQubit.range(n)
+    keys = ['a', 'b', 'Key', 'x y', 'c']
+    c = cirq.Circuit()
+    measured = []     # (key, nbits)
+    bits = 0
+    nops = rng.randint(2, 7)
+    for i in range(nops):
+        r = rng.random()
+        if (r < 0.35 or (i >= nops - 2 and not measured)) and bits < 4:
+            kq = rng.randint(1, min(2, n, 4 - bits))
+            ws = rng.sample(range(n), kq)
+            key = rng.choice(keys[:3]) if rng.random() < 0.85 else 'x y'
+            prev = [m for m in measured if m[0] == key]
+            if prev and prev[0][1] != kq and rng.random() < 0.8:
+                key = next((kk for kk in keys if not any(m[0] == kk for m in measured)), key)
+            inv = tuple(rng.random() < 0.5 for _ in ws) if rng.random() < 0.5 else ()
+            c.append(cirq.measure(*[qs[w] for w in ws], key=key, invert_mask=inv),
+                     strategy=cirq.InsertStrategy.NEW if rng.random() < 0.3 else cirq.InsertStrategy.EARLIEST)
+            measured.append((key, kq))
+            bits += kq
+            continue
+        if r > 0.95:
+            c.append(cirq.reset(qs[rng.randrange(n)]))
+            continue
+        kq = 1 if (n == 1 or rng.random() < 0.65) else 2
+        ws = rng.sample(range(n), kq)
+        fams = ['XPow', 'YPow', 'ZPow', 'HPow', 'PhasedX', 'Rx', 'Ry'] if kq == 1 else ['CZPow', 'CXPow', 'SwapPow', 'ISwapPow', 'FSim']
+        g = gates.draw(rng, rng.choice(fams))
+        op = g.cirq_gate(cirq).on(*[qs[w] for w in ws])
+        if measured and rng.random() < 0.45:
+            key, kb = rng.choice(measured)
+            ninst = sum(1 for m in measured if m[0] == key)
+            r2 = rng.random()
+            if r2 < 0.55:
+                cond = cirq.KeyCondition(cirq.MeasurementKey(key))
+            elif r2 < 0.63:
+                cond = cirq.KeyCondition(cirq.MeasurementKey(key), index=rng.choice([0, -1, -ninst]))
+            elif r2 < 0.88:
+                cond = sympy.Eq(sympy.Symbol(key), rng.randrange(2 ** kb))
+            elif r2 < 0.94:
+                cond = rng.choice([sympy.Symbol(key), sympy.Ne(sympy.Symbol(key), 0)])
+            else:
+                cond = cirq.BitMaskKeyCondition(key, bitmask=1, target_value=1, equal_target=True)
+            op = op.with_classical_controls(cond)
+        c.append(op, strategy=cirq.InsertStrategy.NEW if rng.random() < 0.2 else cirq.InsertStrategy.EARLIEST)
+    if not measured:
+        c.append(cirq.measure(qs[rng.randrange(n)], key='a'))
+    return c, sorted(c.all_qubits())
+
+
+def measure_stream(ctx, cirq, b, n):
+    rng = ctx.rng
+    for _ in range(n):
+        c, qs = random_qasm_mcircuit(cirq, rng)
+        cfg = draw_config(rng, qs)
+        nontrivial = any(not cirq.is_measurement(op) for op in c.all_operations())
+        b.add('measure', c, cfg, ['measure'], nontrivial)
+
+
+def replay(ctx, data):
+    """Re-export the stored circuit with the stored configuration and evaluate every check of that program again."""
+    cirq = env.import_cirq()
+    circuit = cirq.read_json(json_text=data['circuit_json'])
+    cj = data['config']
+    qs = sorted(circuit.all_qubits())
+    order = [cirq.LineQubit(x) for x in cj['order']]
+    cfg = dict(version=cj['version'], precision=cj['precision'], api=cj['api'], order=order)
+    text, exc = export(cirq, circuit, order, cfg['api'], cfg['version'], cfg['precision'])
+    if exc is not None:
+        print('export raises', type(exc).__name__, exc)
+        return classify_export_error(cirq, circuit, exc) == 'refused'
+    print(text)
+    try:
+        P, exprs, info = program_checks(cirq, circuit, cfg, text, None)
+    except (Malformed, Unsupported) as e:
+        print('reader:', e)
+        return False
+    if P.undefined:
+        print('undefined in the standard library of this version:', sorted(set(P.undefined)))
+    body = PRE + 'Definition checks : list bool := [\n' + ';\n'.join('(' + e + ')' for _, e in exprs) + '].\nEval vm_compute in failing (fun b => b) checks.\n'
+    bad = coq.parse_nat_list(coq.parse_evals(coq.coq_eval('c19_replay', body))[0])
+    for i in bad:
+        print('FAILS:', exprs[i][0])
+    return not bad and not P.undefined
